@@ -1,4 +1,5 @@
 pub mod c01;
+pub mod c02;
 
 use crate::report::{Report, Tier};
 use serde_json::Value;
@@ -47,6 +48,22 @@ pub fn plan(id: &str) -> Option<Plan> {
             assumptions: BASE_ASSUMPTIONS.to_vec(),
             floor: 50,
             engines: vec![Engine { name: "sim", salt: 1, quick: 3000, thorough: 120_000, serial: false, run: Box::new(|s, t| c01::scenario("C07", s, t)) }],
+            extra: None,
+        },
+        "C02" => Plan {
+            id: "C02",
+            rule: "scenario = seeded limiter (3 window types, presets, L, P, timeout) + either 1-56 concurrent callers on clones with arrivals on window-boundary grids and cancellations, or a sequential driver issuing bursts after exact idle gaps; oracle = exact cut/span decision over the inner-call instants; non-trivial iff >=2 callers waited (or woke at the same instant) or >=1 was rejected; distinct = (poll trace, admission instants, outcomes, config) signature",
+            assumptions: BASE_ASSUMPTIONS.to_vec(),
+            floor: 50,
+            engines: vec![Engine { name: "sim", salt: 1, quick: 6000, thorough: 400_000, serial: false, run: Box::new(|s, t| c02::scenario("C02", s, t)) }],
+            extra: None,
+        },
+        "C15" => Plan {
+            id: "C15",
+            rule: "same scenarios as C02; oracle = per-call decision instant vs first poll + timeout, rejected-never-inner / admitted-exactly-once, spare-capacity and idle-2P immediate admission clauses, waiter-needs-later-window check; non-trivial iff >=1 waiter was admitted later and >=1 call was rejected; distinct = (poll trace, admission instants, outcomes, config) signature",
+            assumptions: BASE_ASSUMPTIONS.to_vec(),
+            floor: 50,
+            engines: vec![Engine { name: "sim", salt: 1, quick: 6000, thorough: 400_000, serial: false, run: Box::new(|s, t| c02::scenario("C15", s, t)) }],
             extra: None,
         },
         _ => return None,
